@@ -7,7 +7,10 @@ pub struct NameGenerator {
 
 impl NameGenerator {
     pub fn fresh_type_variable(&mut self) -> TypeVariable {
-        let name = format!("T{}", self.counter);
+        // The name must not be a valid identifier: type parameters are substituted
+        // by name, so a user-defined type parameter `T0` would otherwise be
+        // confused with a fresh type variable.
+        let name = format!("'T{}", self.counter);
         self.counter += 1;
         TypeVariable::new(name)
     }
